@@ -231,6 +231,32 @@ def sub_bulk(case):
     return "bulk/" + unit
 
 
+def sub_rpe_reuse(case):
+    """the pairs an RPE object selects are those of the sequence it evaluates - also when the object is used again"""
+    from evo.core.trajectory import PosePath3D
+    A = dict(case["A"])
+    B = dict(case["A"], P=case["PB"][: len(case["A"]["P"])] + case["A"]["P"][len(case["PB"]):])
+    out = []
+    rpe = metrics.RPE(metrics.PoseRelation.translation_part, A["delta"], UNITS[A["unit"]], float(A["tol"]), bool(A["all_pairs"]))
+    for c in (A, B, A):
+        P, Rs, poses = build_poses(c)
+        path = PosePath3D(poses_se3=[p.copy() for p in poses])
+        try:
+            exp = [int(j) for i, j in metrics.id_pairs_from_delta(poses, c["delta"], UNITS[c["unit"]], float(c["tol"]), bool(c["all_pairs"]))]
+        except filters.FilterException:
+            exp = None
+        try:
+            rpe.process_data((path, path))
+            got = [int(j) for j in rpe.delta_ids]
+        except filters.FilterException:
+            got = None
+        if got != exp:
+            raise Mismatch("RPE object (evaluation nr. %d on it) selected pair ends %s, the selector gives %s for this sequence [unit %s, delta %r]" % (
+                len(out) + 1, got, exp, c["unit"], c["delta"]), clause="rpe_selection", unit=c["unit"], all_pairs=bool(c["all_pairs"]))
+        out.append(got)
+    return "rpe_reuse"
+
+
 st_P = st.lists(st.lists(gen.unit_f, min_size=3, max_size=3), min_size=2, max_size=30)
 
 
@@ -250,17 +276,22 @@ def _mk_random(P, rots, yaw, use_yaw, mag, unit, dsel, tol, all_pairs, via, stil
         case["delta"] = 1 + dsel["i"] % (n + 1)
     elif unit == "m":
         acc = rm.accumulated(Pn)
-        if dsel["kind"] == "realised":
+        if dsel["kind"] in ("realised", "near"):
             i, j = sorted((dsel["i"] % n, dsel["j"] % n))
             v = math.fsum(rm.step_lengths(Pn)[i:j]) if j > i else acc[-1]
+            if dsel["kind"] == "near":
+                # just outside / inside the tolerance band: relative offsets far above the ambiguity margin (1e-9) but tiny
+                v = v * (1.0 + dsel["eps"])
             case["delta"] = v if v > 0 else max(acc[-1], 1e-3) * dsel["f"]
         else:
             case["delta"] = max(acc[-1], 1e-3) * dsel["f"] * 1.5
     else:
-        if dsel["kind"] == "realised":
+        if dsel["kind"] in ("realised", "near"):
             i, j = sorted((dsel["i"] % n, dsel["j"] % n))
             a = rm.rot_angle_between(Rs[i], Rs[j]) if j > i else 0.5
             a = a if a > 1e-6 else 0.5
+            if dsel["kind"] == "near":
+                a = min(a * (1.0 + dsel["eps"]), math.pi)
         elif dsel["kind"] == "out":
             a = math.pi + 0.25
         else:
@@ -269,11 +300,12 @@ def _mk_random(P, rots, yaw, use_yaw, mag, unit, dsel, tol, all_pairs, via, stil
     return case
 
 
-st_dsel = st.fixed_dictionaries({"kind": st.sampled_from(["realised", "realised", "free", "out"]), "i": st.integers(0, 40),
-                                 "j": st.integers(0, 40), "f": gen.fl(0.01, 1.0)})
+st_dsel = st.fixed_dictionaries({"kind": st.sampled_from(["realised", "realised", "near", "near", "free", "out"]), "i": st.integers(0, 40),
+                                 "j": st.integers(0, 40), "f": gen.fl(0.01, 1.0),
+                                 "eps": st.sampled_from([1e-7, -1e-7, 2e-6, -2e-6, 8e-6, -8e-6, 5e-5, -5e-5])})
 st_random = st.builds(
     _mk_random, st_P, st.lists(gen.st_rotation, min_size=1, max_size=30), st.lists(st.integers(0, 5), min_size=1, max_size=30),
-    st.booleans(), gen.log_uniform(-2, 4), st.sampled_from(["f", "m", "m", "r", "d"]), st_dsel, st.sampled_from([0.0, 0.1, 0.5, 1.0]),
+    st.booleans(), gen.log_uniform(-2, 4), st.sampled_from(["f", "m", "m", "r", "d"]), st_dsel, st.sampled_from([0.0, 0.0, 1e-6, 0.1, 0.5, 1.0]),
     st.booleans(), st.sampled_from(["filters", "metrics"]), st.lists(st.booleans(), min_size=1, max_size=5))
 
 st_bulk = st.fixed_dictionaries({
@@ -291,4 +323,6 @@ SUBS = [
     Sub("frames_grid", kind="custom", custom=custom_frames_grid, n_quick=1, n_thorough=1, shards_quick=2, shards_thorough=4,
         exhaustive_tiers=("quick", "thorough")),
     Sub("bulk", sub_bulk, st_bulk, 12, 300, shards_quick=4),
+    Sub("rpe_reuse", sub_rpe_reuse, st.fixed_dictionaries({"A": st_random.filter(lambda c: c["unit"] in ("m", "r", "d", "f") and not (
+        c["unit"] in ("r", "d") and c["delta"] > (math.pi if c["unit"] == "r" else 180.0))), "PB": st_P}), 400, 15000, nontrivial=lambda c: True),
 ]
